@@ -45,7 +45,28 @@ func echoOK(src, out *dhcpv4.DHCPv4, code uint8) bool {
 	return optAbsent(out, code)
 }
 
-func sameIP(a, b net.IP) bool { return (a == nil) == (b == nil) && bytes.Equal(a, b) }
+// wire4 is what the encoder writes for an address field: nil is 0.0.0.0, an
+// IPv4 or IPv4-mapped value its four bytes; ok=false for anything else.
+func wire4(ip net.IP) ([]byte, bool) {
+	if ip == nil {
+		return []byte{0, 0, 0, 0}, true
+	}
+	if v := ip.To4(); v != nil {
+		return []byte(v), true
+	}
+	return nil, false
+}
+
+// sameIP: the same address (same four bytes on the wire), or, for values that
+// are not IPv4 addresses, the same bytes.
+func sameIP(a, b net.IP) bool {
+	wa, oka := wire4(a)
+	wb, okb := wire4(b)
+	if oka && okb {
+		return bytes.Equal(wa, wb)
+	}
+	return oka == okb && bytes.Equal(a, b)
+}
 
 type clauseFail struct{ class, what string }
 
@@ -57,15 +78,20 @@ func checkDefaults(c *buildCase, out *dhcpv4.DHCPv4) []clauseFail {
 	in := c.in
 	switch c.kind {
 	case "reply":
-		want := dhcpv4.OpcodeBootRequest
-		if in.OpCode == dhcpv4.OpcodeBootRequest {
-			want = dhcpv4.OpcodeBootReply
+		// opposite opcode: REPLY for a REQUEST, REQUEST for a REPLY; for an input
+		// opcode that is neither, one of the two (necessarily a different one)
+		okOp := out.OpCode != in.OpCode && (out.OpCode == dhcpv4.OpcodeBootRequest || out.OpCode == dhcpv4.OpcodeBootReply)
+		if in.OpCode == dhcpv4.OpcodeBootRequest && out.OpCode != dhcpv4.OpcodeBootReply {
+			okOp = false
 		}
-		if out.OpCode != want || out.OpCode == in.OpCode {
+		if in.OpCode == dhcpv4.OpcodeBootReply && out.OpCode != dhcpv4.OpcodeBootRequest {
+			okOp = false
+		}
+		if !okOp {
 			bad("reply-opcode", "request opcode %d, reply opcode %d", in.OpCode, out.OpCode)
 		}
 		if out.TransactionID != in.TransactionID {
-			bad("reply-fields", "xid %x, request's %x", out.TransactionID, in.TransactionID)
+			bad("reply-fields", "xid %x, request's %x", out.TransactionID[:], in.TransactionID[:])
 		}
 		if out.HWType != in.HWType {
 			bad("reply-fields", "hwtype %d, request's %d", out.HWType, in.HWType)
@@ -94,7 +120,7 @@ func checkDefaults(c *buildCase, out *dhcpv4.DHCPv4) []clauseFail {
 	case "reqoffer":
 		cl := "request-from-offer"
 		if out.TransactionID != in.TransactionID {
-			bad(cl, "xid %x, offer's %x", out.TransactionID, in.TransactionID)
+			bad(cl, "xid %x, offer's %x", out.TransactionID[:], in.TransactionID[:])
 		}
 		if !optIs(out, 53, []byte{3}) {
 			bad(cl, "message type %s, want REQUEST", optShow(out, 53))
@@ -131,7 +157,7 @@ func checkDefaults(c *buildCase, out *dhcpv4.DHCPv4) []clauseFail {
 			bad(cl, "broadcast flag set (flags %#x)", out.Flags)
 		}
 		if out.Flags != in.Flags&0x7fff {
-			bad(cl, "flags %#x, ack's %#x", out.Flags, in.Flags)
+			bad(cl, "flags %#x, want the ack's %#x with bit 15 clear", out.Flags, in.Flags)
 		}
 		if !optIs(out, 53, []byte{3}) {
 			bad(cl, "message type %s, want REQUEST", optShow(out, 53))
@@ -234,7 +260,7 @@ func checkModifiersLast(c *buildCase, full *dhcpv4.DHCPv4) []clauseFail {
 	}
 	// the transaction id is comparable when it does not depend on the draw
 	if a2.TransactionID == a3.TransactionID && full.TransactionID != a2.TransactionID {
-		fs = append(fs, clauseFail{"modifiers-last", fmt.Sprintf("xid %x, expected %x", full.TransactionID, a2.TransactionID)})
+		fs = append(fs, clauseFail{"modifiers-last", fmt.Sprintf("xid %x, expected %x", full.TransactionID[:], a2.TransactionID[:])})
 	}
 	return fs
 }
